@@ -18,7 +18,8 @@ def cases(ctx, n):
     rng = ctx["rng"]
     lines = []
     for c in load_corpus("C07"):
-        lines.append((c["line"], "corpus"))
+        if "line" in c:
+            lines.append((c["line"], "corpus"))
     for l in lg.NEAR_MISSES:
         lines.append((l, "near_miss"))
     while len(lines) < n // 3:
@@ -84,6 +85,7 @@ def run(ctx, only=None):
     else:
         cs = cases(ctx, 2400 if ctx["tier"] == "quick" else 60000)
         ts = [track_case(rng, [["S", 0, 0], ["N", 0, 0, 0], ["S", 10, 5], ["S", 20, 0], ["E", 20, "solo"]])]
+        ts += [track_case(rng, c["items"]) for c in load_corpus("C07") if c.get("kind") == "track"]
         while len(ts) < (60 if ctx["tier"] == "quick" else 2000):
             ts.append(track_case(rng))
     return merge([run_cases("C07", cs, lg.DEC_IN, lg.DEC_OUT, lg.DEC_VERDICT, lg.DEC_SPEC, shard_size=400),
